@@ -118,6 +118,10 @@ def make_cases(ctx, langs):
         if not c["plo"]:
             st["PREFER_LOCALE_DATE_ORDER"] = False
         c["s"] = render(c["f"], c["sep"], c["tm"])
+        # a weekday name next to the numeric date (true or not for that date) is decoration: the order still decides
+        if c["clause"] == "explicit" and rng.random() < 0.15:
+            wd = rng.choice(["Mon", "Tue", "Wed", "Thu", "Fri", "Sat", "Sun", "Monday", "Tuesday", "Wednesday", "Thursday", "Friday", "Saturday", "Sunday"])
+            c["s"] = rng.choice(["%s %s" % (wd, c["s"]), "%s, %s" % (wd, c["s"]), "%s (%s)" % (c["s"], wd)]) if c["tm"] is None else "%s %s" % (wd, c["s"])
         c["settings"] = st if not c.get("poison") else None
         c["api"] = "ddp"
         c["probe"] = True
